@@ -17,7 +17,8 @@ META = {
     "min_obs": {"all": {"graphs_checked": 500, "multi_tier": 200, "big_tier": 100, "pairwise_tie": 50,
                         "condorcet_winner": 100, "condoborda_straddle": 50, "dominating_checked": 200,
                         "profiles_with_tied_positions": 100, "ballots_five_short": 10, "graphs_with_ballot_length": 100,
-                        "short_ballots_left_unfilled_by_ballot_length": 30}},
+                        "short_ballots_left_unfilled_by_ballot_length": 30,
+                        "condoborda_straddling_tier_with_several_tied_borda_groups": 30}},
 }
 
 
@@ -34,6 +35,18 @@ def gen_profile(rnd, maxn):
         bl = [canon.spec_ballot(r=[[c] for c in r], w=w), canon.spec_ballot(r=[[c] for c in r[::-1]], w=w)]
         bl += gen.ranked(rnd, cs=cs, nb=rnd.randint(0, 2))["ballots"]
         spec, m = canon.spec_profile(cs, bl), rnd.randint(1, n)
+    elif t < 0.6:
+        # one tier glued by pairwise ties, with two pairs of equal Borda score: (a,c,b,d) and (b,d,a,c) with equal weight give
+        # Borda a = b > c = d while a~b, a~d, b~c, c~d tie head-to-head; optional candidates above / below everybody
+        a, b, c, d, hi, lo = rnd.sample(gen.NAMES, 6)
+        w = gen.weight(rnd, "int")
+        top = [hi] if rnd.random() < 0.4 else []
+        bot = [lo] if rnd.random() < 0.4 else []
+        cs = rnd.sample([a, b, c, d] + top + bot, 4 + len(top) + len(bot))
+        bl = [canon.spec_ballot(r=[[x] for x in top + [a, c, b, d] + bot], w=w),
+              canon.spec_ballot(r=[[x] for x in top + [b, d, a, c] + bot], w=w)]
+        rnd.shuffle(bl)
+        spec, m = canon.spec_profile(cs, bl), rnd.randint(1, len(cs))
     elif t < 0.8:
         spec, m, _ = gen.any_ranked(rnd, maxn=maxn)
     else:
@@ -170,7 +183,21 @@ def check_case(ctx, case):
         return
     # CondoBorda
     bs = scoring.borda(cands, ballots)
-    for script, o4, r in rng.explore(lambda: el.CondoBorda(prof, m=m), max_runs=3):
+    # the straddling tier may hold SEVERAL groups of equal Borda score: every order the random fallback can draw for them is then
+    # tried (a draw must not move a candidate of a lower group past one of a higher group)
+    bs_ = scoring.borda(cands, ballots)
+    tot_ = 0
+    multi_groups = False
+    for t_ in ref_t:
+        if tot_ + len(t_) <= m:
+            tot_ += len(t_)
+            continue
+        vals_ = [bs_[c] for c in t_]
+        multi_groups = sum(1 for v in set(vals_) if vals_.count(v) >= 2) >= 2
+        break
+    if multi_groups:
+        ctx.count("condoborda_straddling_tier_with_several_tied_borda_groups")
+    for script, o4, r in rng.explore(lambda: el.CondoBorda(prof, m=m), max_runs=24 if multi_groups else 3):
         if not o4.ok:
             ctx.fail(f"CondoBorda raised {o4.etype}", case, {"msg": str(o4.exc)[:200], "script": script})
             return
